@@ -193,25 +193,110 @@ theorem good_win {inp G r its} (h : Good inp G r its) : Win inp G r := by
   · exact h.1.toWin
   · exact h.1.toWin
 
-theorem good_eof {inp G r its} (h : Good inp G r its) : r.br.buf = [] ∨ Eof inp r := by
-  unfold Good at h
-  split at h
-  · exact Or.inl h.2.1
-  · exact Or.inr h.2.1
-  · exact Or.inr h.2.1
-  · exact Or.inr h.2.1
-
-theorem bufSeek_ok (b : BufRd) (h : b.src.seekFails = []) (to : Nat) :
+/-- `BufReader::seek`, the two outcomes as equations -/
+theorem bufSeek_eq (b : BufRd) (to : Nat) :
+    (∃ k, b.src.seekFails ≠ [] ∧
+      b.seek to = ({ b with src := { b.src with seekCount := b.src.seekCount + 1 } }, some k)) ∨
     b.seek to = ({ b with src := { b.src with seekCount := b.src.seekCount + 1, cursor := to },
                           buf := [] }, none) := by
-  simp [BufRd.seek, Src.seek, h]
+  unfold BufRd.seek Src.seek
+  cases hf : b.src.seekFails.find? (·.1 = b.src.seekCount) with
+  | none => right; rfl
+  | some p =>
+    left
+    refine ⟨p.2, ?_, rfl⟩
+    intro h
+    rw [h] at hf
+    simp at hf
+
+/-- the reader with another seek counter -/
+def bumpSeek (r : Reader) (c : Nat) : Reader :=
+  { r with br := { r.br with src := { r.br.src with seekCount := c } } }
+
+/-- a reader whose buffer reader differs only in the seek counter -/
+theorem good_seekCount {inp G r its} (h : Good inp G r its) (c : Nat) :
+    Good inp G (bumpSeek r c) its := by
+  have winT : ∀ {r : Reader}, Win inp G r → Win inp G (bumpSeek r c) := by
+    intro r hw
+    obtain ⟨a, b, c', d, e, f, g, i, w, k, z⟩ := hw
+    exact ⟨a, b, c', d, e, f, g, i, w, k, z⟩
+  cases hst : r.state with
+  | new =>
+    simp only [Good, hst] at h
+    unfold Good
+    rw [show (bumpSeek r c).state = .new from hst]
+    exact ⟨winT h.1, h.2⟩
+  | finished =>
+    simp only [Good, hst] at h
+    unfold Good
+    rw [show (bumpSeek r c).state = .finished from hst]
+    exact ⟨winT h.1, h.2⟩
+  | positioned =>
+    simp only [Good, hst] at h
+    unfold Good
+    rw [show (bumpSeek r c).state = .positioned from hst]
+    exact ⟨⟨winT h.1.toWin, h.1.pos0_le⟩, h.2.1, h.2.2.1, h.2.2.2⟩
+  | parsing =>
+    simp only [Good, hst] at h
+    unfold Good
+    rw [show (bumpSeek r c).state = .parsing from hst]
+    exact ⟨⟨winT h.1.toWin, h.1.pos0_le⟩, h.2⟩
+
+/-- a failed refill leaves a good reader good (for the same items): where the end of the
+input matters, nothing can have been added -/
+theorem good_fill_fail {inp G r its} (h : Good inp G r its) {br' : BufRd} {ext : List UInt8}
+    (hbuf : br'.buf = r.br.buf ++ ext) (hcap : br'.cap = r.br.cap)
+    (hcur : br'.src.cursor = r.br.src.cursor + ext.length)
+    (hle : ext.length ≤ min (r.br.cap - r.br.buf.length) (inp.length - r.br.src.cursor))
+    (hnG : ¬ G) (hw2 : Win inp G { r with br := br' }) :
+    Good inp G { r with br := br' } its := by
+  have extNil : Eof inp r → ext = [] := by
+    intro he
+    apply List.eq_nil_of_length_eq_zero
+    by_cases hlt : r.br.buf.length < r.br.cap
+    · have := he hlt; omega
+    · omega
+  cases hst : r.state with
+  | new =>
+    simp only [Good, hst] at h ⊢
+    exact ⟨hw2.set_state _, fun hG => absurd hG hnG, h.2.2⟩
+  | finished =>
+    simp only [Good, hst] at h ⊢
+    exact ⟨hw2.set_state _, h.2⟩
+  | positioned =>
+    simp only [Good, hst] at h ⊢
+    obtain ⟨hb, he, hip, hits⟩ := h
+    have hext := extNil he
+    subst hext
+    simp only [List.append_nil, List.length_nil, Nat.add_zero] at hbuf hcur
+    refine ⟨⟨hw2.set_state _, by simp only [hbuf]; exact hb.pos0_le⟩, ?_, ?_, hits⟩
+    · intro hlt
+      simp only [hbuf, hcap, hcur] at hlt ⊢
+      exact he hlt
+    · intro ip hipv
+      simp only [hbuf]
+      exact hip ip hipv
+  | parsing =>
+    simp only [Good, hst] at h ⊢
+    obtain ⟨hb, he, hip, h01, h1l, hits⟩ := h
+    have hext := extNil he
+    subst hext
+    simp only [List.append_nil, List.length_nil, Nat.add_zero] at hbuf hcur
+    refine ⟨⟨hw2.set_state _, by simp only [hbuf]; exact hb.pos0_le⟩, ?_, hip, h01,
+      by simp only [hbuf]; exact h1l, hits⟩
+    intro hlt
+    simp only [hbuf, hcap, hcur] at hlt ⊢
+    exact he hlt
 
 /-- seeking to an offset of the input, with the line number that belongs to it: the reader is
-positioned there, whatever its state was -/
-theorem seek_good (inp : List UInt8) (G : Prop) (r : Reader) (its : List FqItem)
+positioned there, whatever its state was – or, in a non-ideal environment, the seek or a
+refill fails and the reader stays good (for the same items, or finished) -/
+theorem seek_cases (inp : List UInt8) (G : Prop) (r : Reader) (its : List FqItem)
     (hg : Good inp G r its) (l b : Nat) (hb : b ≤ inp.length) :
-    (seek r l b).2 = .ok () ∧ Good inp G (seek r l b).1 (itemsAt inp b l) ∧
-      (seek r l b).1.line = l ∧ (seek r l b).1.byte = b := by
+    ((seek r l b).2 = .ok () ∧ Good inp G (seek r l b).1 (itemsAt inp b l) ∧
+      (seek r l b).1.line = l ∧ (seek r l b).1.byte = b) ∨
+    (¬ G ∧ (∃ k, (seek r l b).2 = .err (.io k)) ∧
+      (Good inp G (seek r l b).1 its ∨ Good inp G (seek r l b).1 [])) := by
   have hw := good_win hg
   unfold seek
   simp only
@@ -223,18 +308,22 @@ theorem seek_good (inp : List UInt8) (G : Prop) (r : Reader) (its : List FqItem)
       Int.toNat_of_nonneg hp1
     by_cases hlt : r.br.buf.length < r.br.cap
     · rw [if_pos hlt]
-      obtain ⟨br', ext, n, hfill, hbuf', hcap', hcur', hext, hw2, he2, hn⟩ := fill_win inp G r hw
-      rw [hfill]
-      refine ⟨rfl, ?_, rfl, rfl⟩
-      refine good_positioned_of ⟨?_, ?_⟩ he2 (fun ip h => by cases h) rfl rfl
-      · obtain ⟨a, b', c, d, e, f, g, i, w, k, z⟩ := hw2
-        refine ⟨a, b', c, d, e, f, g, i, w, ?_, z⟩
-        simp only at k ⊢
-        omega
-      · simp only [hbuf', List.length_append]
-        omega
+      rcases fill_cases inp G r hw with
+        ⟨br', ext, n, hfill, hbuf', hcap', hcur', hext, hw2, he2, hn⟩ |
+        ⟨br', ext, k, hfill, hbuf', hcap', hcur', hle, hnG, hw2⟩
+      · rw [hfill]
+        refine Or.inl ⟨rfl, ?_, rfl, rfl⟩
+        refine good_positioned_of ⟨?_, ?_⟩ he2 (fun ip h => by cases h) rfl rfl
+        · obtain ⟨a, b', c, d, e, f, g, i, w, k, z⟩ := hw2
+          refine ⟨a, b', c, d, e, f, g, i, w, ?_, z⟩
+          simp only at k ⊢
+          omega
+        · simp only [hbuf', List.length_append]
+          omega
+      · rw [hfill]
+        exact Or.inr ⟨hnG, ⟨k, rfl⟩, Or.inl (good_fill_fail hg hbuf' hcap' hcur' hle hnG hw2)⟩
     · rw [if_neg hlt]
-      refine ⟨rfl, ?_, rfl, rfl⟩
+      refine Or.inl ⟨rfl, ?_, rfl, rfl⟩
       refine good_positioned_of ⟨?_, ?_⟩ (fun h => absurd h hlt) (fun ip h => by cases h) rfl rfl
       · obtain ⟨a, b', c, d, e, f, g, i, w, k, z⟩ := hw
         refine ⟨a, b', c, d, e, f, g, i, w, ?_, z⟩
@@ -243,28 +332,51 @@ theorem seek_good (inp : List UInt8) (G : Prop) (r : Reader) (its : List FqItem)
       · simp only
         omega
   · -- a real seek
-    rw [bufSeek_ok r.br hw.nosf b]
-    simp only
-    have hw1 : Win inp G (seekReset r
-        { r.br with src := { r.br.src with seekCount := r.br.src.seekCount + 1, cursor := b },
-                    buf := [] } l b) := by
-      obtain ⟨a, b', c, d, e, f, g, i, w, k, z⟩ := hw
-      refine ⟨a, hb, c, d, e, f, by simp [seekReset], by simp [seekReset], ?_, ?_, z⟩
-      · simp [seekReset]
-      · simp [seekReset]
-    obtain ⟨br', ext, n, hfill, hbuf', hcap', hcur', hext, hw2, he2, hn⟩ := fill_win inp G _ hw1
-    have hfill' : fillBuf { r.br with
-        src := { r.br.src with seekCount := r.br.src.seekCount + 1, cursor := b }, buf := [] }
-        = (br', .ok n) := hfill
-    simp only [hfill']
-    refine ⟨trivial, ?_, trivial, trivial⟩
-    refine good_positioned_of ⟨?_, Nat.zero_le _⟩ he2 (fun ip h => by cases h) rfl rfl
-    obtain ⟨a, b', c, d, e, f, g, i, w, k, z⟩ := hw2
-    exact ⟨a, b', c, d, e, f, g, i, w, k, z⟩
+    rcases bufSeek_eq r.br b with ⟨k, hne, hsk⟩ | hsk
+    · rw [hsk]
+      simp only
+      have hnG : ¬ G := fun hG => hne (hw.nosf hG)
+      exact Or.inr ⟨hnG, ⟨k, rfl⟩, Or.inl (good_seekCount hg _)⟩
+    · rw [hsk]
+      simp only
+      have hw1 : Win inp G (seekReset r
+          { r.br with src := { r.br.src with seekCount := r.br.src.seekCount + 1, cursor := b },
+                      buf := [] } l b) := by
+        obtain ⟨a, b', c, d, e, f, g, i, w, k, z⟩ := hw
+        refine ⟨a, hb, c, d, e, f, by simp [seekReset], by simp [seekReset], ?_, ?_, z⟩
+        · simp [seekReset]
+        · simp [seekReset]
+      rcases fill_cases inp G _ hw1 with
+        ⟨br', ext, n, hfill, hbuf', hcap', hcur', hext, hw2, he2, hn⟩ |
+        ⟨br', ext, k, hfill, hbuf', hcap', hcur', hle, hnG, hw2⟩
+      · have hfill' : fillBuf { r.br with
+            src := { r.br.src with seekCount := r.br.src.seekCount + 1, cursor := b }, buf := [] }
+            = (br', .ok n) := hfill
+        simp only [hfill']
+        refine Or.inl ⟨trivial, ?_, trivial, trivial⟩
+        refine good_positioned_of ⟨?_, Nat.zero_le _⟩ he2 (fun ip h => by cases h) rfl rfl
+        obtain ⟨a, b', c, d, e, f, g, i, w, k, z⟩ := hw2
+        exact ⟨a, b', c, d, e, f, g, i, w, k, z⟩
+      · have hfill' : fillBuf { r.br with
+            src := { r.br.src with seekCount := r.br.src.seekCount + 1, cursor := b }, buf := [] }
+            = (br', .error k) := hfill
+        simp only [hfill']
+        refine Or.inr ⟨hnG, ⟨k, rfl⟩, Or.inr ?_⟩
+        refine good_finished_of ?_ rfl
+        obtain ⟨a, b', c, d, e, f, g, i, w, k, z⟩ := hw2
+        exact ⟨a, b', c, d, e, f, g, i, w, k, z⟩
 
+/-- in an ideal environment the seek succeeds -/
+theorem seek_good (inp : List UInt8) (G : Prop) (hG : G) (r : Reader) (its : List FqItem)
+    (hg : Good inp G r its) (l b : Nat) (hb : b ≤ inp.length) :
+    (seek r l b).2 = .ok () ∧ Good inp G (seek r l b).1 (itemsAt inp b l) ∧
+      (seek r l b).1.line = l ∧ (seek r l b).1.byte = b := by
+  rcases seek_cases inp G r its hg l b hb with h | ⟨hnG, -⟩
+  · exact h
+  · exact absurd hG hnG
 
 /-- seeks to item positions -/
-theorem step_seek (inp : List UInt8) (G : Prop) (m : MSt) (a : AState)
+theorem step_seek (inp : List UInt8) (G : Prop) (hG : G) (m : MSt) (a : AState)
     (hs : Sim inp G (Spec.fastq inp) m a) (i : Nat) :
     ∃ a', acceptSeek (Spec.fastq inp) a i (stepSeek m i).2 = some a' ∧
       Sim inp G (Spec.fastq inp) (stepSeek m i).1 a' := by
@@ -277,7 +389,7 @@ theorem step_seek (inp : List UInt8) (G : Prop) (m : MSt) (a : AState)
     rw [if_pos (List.getElem?_eq_none_iff.mp hi)]
   | some it =>
     obtain ⟨hb, hdrop⟩ := fastq_drop inp i it hi
-    obtain ⟨h1, h2, h3, h4⟩ := seek_good inp G m.r _ hs.good (itemPos it).1 (itemPos it).2 hb
+    obtain ⟨h1, h2, h3, h4⟩ := seek_good inp G hG m.r _ hs.good (itemPos it).1 (itemPos it).2 hb
     have hlt : i < (Spec.fastq inp).length := by
       rcases Nat.lt_or_ge i (Spec.fastq inp).length with h | h
       · exact h
@@ -310,8 +422,10 @@ theorem step_ok (inp : List UInt8) (G : Prop) (m : MSt) (a : AState)
     StepOk inp G (Spec.fastq inp) a op (stepM m op) := by
   cases op with
   | seekItem i =>
-    obtain ⟨a', h1, h2⟩ := step_seek inp G m a hs i
-    exact Or.inl ⟨a', h1, h2⟩
+    by_cases hG : G
+    · obtain ⟨a', h1, h2⟩ := step_seek inp G hG m a hs i
+      exact Or.inl ⟨a', h1, h2⟩
+    · exact Or.inr hG
   | next => exact step_ok_noseek inp G _ m a hs _ hwf rfl
   | owned => exact step_ok_noseek inp G _ m a hs _ hwf rfl
   | set j n => exact step_ok_noseek inp G _ m a hs _ hwf rfl
@@ -327,7 +441,7 @@ theorem run_accepted (inp : List UInt8) :
   | nil => intro m a _ _; rfl
   | cons op ops ih =>
     intro m a hs hops
-    rcases step_ok inp True m a hs op (hops op List.mem_cons_self) with ⟨a', hacc, hs'⟩ | ⟨hG, -⟩
+    rcases step_ok inp True m a hs op (hops op List.mem_cons_self) with ⟨a', hacc, hs'⟩ | hG
     · simp only [runM, acceptsA, hacc]
       exact ih _ a' hs' (fun o ho => hops o (List.mem_cons_of_mem _ ho))
     · exact absurd trivial hG
